@@ -4,26 +4,29 @@ Helper lemmas for C02, part 4: the model simulates the history spec (induction o
 import Kap.Proofs.C02Route
 namespace Kap.C02
 
-/-- Does the sink under from-node #`i` of `t` have to record the raw point, given who is executing? -/
-def wants (tasks : String → Option Edge) (t : String) (i : Nat) (db rp : String) (r : RawPoint) : Bool :=
-  match tasks t with
+/-- Does the sink under from-node #`i` of `t` have to record the raw point, given who is live? -/
+def wants (live : Option Edge) (i : Nat) (db rp : String) (r : RawPoint) : Bool :=
+  match live with
   | some e => decide ((db, rp) ∈ e.task.dbrps) && sinkGets e.task i (mkPoint db rp r)
   | none => false
 
-theorem wants_eq_qualifies (tasks : String → Option Edge) (t : String) (i : Nat) (db rp : String) (r : RawPoint) :
-    wants tasks t i db rp r = qualifies i { enabled := (tasks t).map (·.task), db := db, rp := rp, pt := r } := by
+theorem wants_eq_qualifies (live : Option Edge) (i : Nat) (db rp : String) (r : RawPoint) :
+    wants live i db rp r = qualifies i { enabled := live.map (·.task), db := db, rp := rp, pt := r } := by
   unfold wants qualifies
-  cases tasks t with
+  cases live with
   | none => rfl
   | some e =>
     simp only [Option.map_some, sinkGets, selectedBy_eq_chainGets]
+
+theorem forkPoint_liveEdge (s : TM) (p : Point) (t : String) : (forkPoint s p).liveEdge t = s.liveEdge t := by
+  rw [forkPoint_eq]; rfl
 
 /-- Forking a batch of points: the tables do not move, the sink gets exactly the wanted points, in order. -/
 theorem forkBatch {db rp : String} (t : String) (i : Nat) (pts : List RawPoint) :
     ∀ s : TM, Inv s →
       let s' := pts.foldl (fun s r => forkPoint s (mkPoint db rp r)) s
-      Inv s' ∧ s'.tasks = s.tasks ∧ s'.defaultRP = s.defaultRP ∧
-      s'.delivered t i = s.delivered t i ++ (pts.filter (wants s.tasks t i db rp)).map (·.id) := by
+      Inv s' ∧ s'.liveEdge t = s.liveEdge t ∧ s'.defaultRP = s.defaultRP ∧
+      s'.delivered t i = s.delivered t i ++ (pts.filter (wants (s.liveEdge t) i db rp)).map (·.id) := by
   induction pts with
   | nil => intro s hi; simp [hi]
   | cons r rest ih =>
@@ -32,15 +35,13 @@ theorem forkBatch {db rp : String} (t : String) (i : Nat) (pts : List RawPoint) 
     have hi1 : Inv (forkPoint s (mkPoint db rp r)) := hi.forkPoint _
     obtain ⟨h1, h2, h3, h4⟩ := ih _ hi1
     refine ⟨h1, ?_, ?_, ?_⟩
-    · rw [h2, forkPoint_eq]; rfl
+    · rw [h2, forkPoint_liveEdge]
     · rw [h3, forkPoint_eq]; rfl
-    · rw [h4]
-      have ht : (forkPoint s (mkPoint db rp r)).tasks = s.tasks := by rw [forkPoint_eq]; rfl
-      rw [ht, forkPoint_eq, delivered_withEvents, fork_one hi, List.append_assoc]
+    · rw [h4, forkPoint_liveEdge, forkPoint_eq, delivered_withEvents, fork_one hi, List.append_assoc]
       congr 1
       rw [List.filter_cons]
       unfold wants
-      cases s.tasks t with
+      cases s.liveEdge t with
       | none => simp
       | some e =>
         simp only []
@@ -62,46 +63,93 @@ theorem stopTask_tasks_apply (s : TM) (id id' : String) :
     rw [stopTask_tasks h]
     simp [upd]
 
-/-- A start that fails after `newFork` (and cleans up) = a start followed by a stop, when the id was not executing. -/
-theorem startTaskFail_eq {s : TM} {d : TaskDef} (hn : s.tasks d.id = none) :
-    startTaskFail s d = stopTask (startTask s d) d.id := by
-  by_cases hd : d.dbrps = []
-  · rw [startTask_nodbrp hd, stopTask_idle hn]; simp [startTaskFail, hd]
-  · have hde : d.dbrps.isEmpty = false := by simpa using hd
-    have hfun : upd (upd s.tasks d.id (some (⟨s.nextEdge, d⟩ : Edge))) d.id none = s.tasks := by
-      funext x
-      by_cases hx : x = d.id
-      · simp [upd, hx, hn]
-      · simp [upd, hx]
-    simp [startTaskFail, startTask, stopTask, hde, hn, newFork, upd, delFork]
-    simpa [upd] using hfun.symm
+theorem stopTask_keysOf_apply (s : TM) (id id' : String) (hne : id' ≠ id) :
+    (stopTask s id).forkKeysOf id' = s.forkKeysOf id' := by
+  cases h : s.tasks id with
+  | none => rw [stopTask_idle h]
+  | some e => rw [stopTask_keysOf h]; simp [upd, hne]
 
-theorem startTaskFail_executing {s : TM} {d : TaskDef} (h : (s.tasks d.id).isSome = true) : startTaskFail s d = s := by
+theorem stopTask_liveEdge (s : TM) (id t : String) :
+    (stopTask s id).liveEdge t = if t = id then none else s.liveEdge t := by
+  unfold TM.liveEdge TM.isLive
+  by_cases hid : t = id
+  · subst hid; simp [stopTask_tasks_apply]
+  · simp [hid, stopTask_tasks_apply, stopTask_keysOf_apply s id t hid]
+
+/-- A start that fails after `newFork` (and cleans up) changes nothing but the edge counter and the closed edges. -/
+theorem startTaskFail_executing {s : TM} {d : TaskDef} (h : s.isLive d.id = true) : startTaskFail s d = s := by
   unfold startTaskFail
   by_cases hd : d.dbrps.isEmpty = true <;> simp [hd, h]
 
 theorem startTaskFail_tasks (s : TM) (d : TaskDef) : (startTaskFail s d).tasks = s.tasks := by
   unfold startTaskFail
-  by_cases h : d.dbrps.isEmpty = true <;> by_cases h2 : (s.tasks d.id).isSome = true <;> simp [h, h2, newFork, delFork]
+  by_cases h : d.dbrps.isEmpty = true <;> by_cases h2 : s.isLive d.id = true <;> simp [h, h2, newFork, delFork]
 
 theorem startTaskFail_log (s : TM) (d : TaskDef) : (startTaskFail s d).log = s.log := by
   unfold startTaskFail
-  by_cases h : d.dbrps.isEmpty = true <;> by_cases h2 : (s.tasks d.id).isSome = true <;> simp [h, h2, newFork, delFork]
+  by_cases h : d.dbrps.isEmpty = true <;> by_cases h2 : s.isLive d.id = true <;> simp [h, h2, newFork, delFork]
 
 theorem startTaskFail_defaultRP (s : TM) (d : TaskDef) : (startTaskFail s d).defaultRP = s.defaultRP := by
   unfold startTaskFail
-  by_cases h : d.dbrps.isEmpty = true <;> by_cases h2 : (s.tasks d.id).isSome = true <;> simp [h, h2, newFork, delFork]
+  by_cases h : d.dbrps.isEmpty = true <;> by_cases h2 : s.isLive d.id = true <;> simp [h, h2, newFork, delFork]
+
+/-- `newFork` alone (registered, `tm.tasks` not yet set) as a state of its own: what `startTaskFail` cleans up. It equals the
+successful start except for `tasks`. -/
+theorem startTaskFail_eq {s : TM} {d : TaskDef} (hd : d.dbrps ≠ []) (hn : s.isLive d.id = false) :
+    startTaskFail s d = { delFork (startTask s d) d.id with tasks := s.tasks } := by
+  have hde : d.dbrps.isEmpty = false := by simpa using hd
+  simp [startTaskFail, startTask, hde, hn, newFork, delFork]
 
 theorem Inv.startTaskFail {s : TM} (hi : Inv s) (d : TaskDef) : Inv (Kap.C02.startTaskFail s d) := by
-  cases hx : s.tasks d.id with
-  | none => rw [startTaskFail_eq hx]; exact (hi.startTask hx).stopTask d.id
-  | some e => rw [startTaskFail_executing (by simp [hx])]; exact hi
+  by_cases hd : d.dbrps = []
+  · have : Kap.C02.startTaskFail s d = s := by simp [Kap.C02.startTaskFail, hd]
+    rw [this]; exact hi
+  cases hl : s.isLive d.id with
+  | true => rw [startTaskFail_executing hl]; exact hi
+  | false =>
+    -- the state after start + delFork satisfies the invariant; putting the old `tasks` back keeps it: no entry of `d.id` is left
+    have h1 : Inv (Kap.C02.delFork (Kap.C02.startTask s d) d.id) := (hi.startTask hl).delFork d.id
+    have hne : ∀ k, ∀ x ∈ (Kap.C02.delFork (Kap.C02.startTask s d) d.id).forks k, x.1 ≠ d.id :=
+      fun k x hx => ((mem_delFork_forks (hi.startTask hl) d.id).mp hx).2
+    have hkeys : ∀ id, (Kap.C02.delFork (Kap.C02.startTask s d) d.id).forkKeysOf id = if id = d.id then [] else s.forkKeysOf id := by
+      intro id
+      rw [delFork_keysOf]
+      by_cases hid : id = d.id
+      · simp [upd, hid]
+      · simp [upd, hid, startTask_keysOf hd hl]
+    have htasks : ∀ id, id ≠ d.id → (Kap.C02.delFork (Kap.C02.startTask s d) d.id).tasks id = s.tasks id := by
+      intro id hid
+      rw [delFork_tasks, startTask_tasks hd hl]; simp [upd, hid]
+    rw [startTaskFail_eq hd hl]
+    constructor
+    · intro k id e hm
+      have hid : id ≠ d.id := hne k _ hm
+      have := h1.entry k id e hm
+      rw [htasks id hid] at this
+      exact this
+    · intro id e ht; exact hi.owner id e ht
+    · intro id e ht hk0 k hk
+      have hk0' : (Kap.C02.delFork (Kap.C02.startTask s d) d.id).forkKeysOf id ≠ [] := hk0
+      rw [hkeys] at hk0'
+      by_cases hid : id = d.id
+      · simp [hid] at hk0'
+      · exact h1.reg id e (by rw [htasks id hid]; exact ht) hk0 k hk
+    · exact h1.nodup
+    · exact h1.listed
+    · exact h1.dom
+    · intro id hk0
+      have hk0' : (Kap.C02.delFork (Kap.C02.startTask s d) d.id).forkKeysOf id ≠ [] := hk0
+      rw [hkeys] at hk0'
+      by_cases hid : id = d.id
+      · simp [hid] at hk0'
+      · simp only [hid, if_false] at hk0'
+        exact hi.keysTask id hk0'
 
-/-- `startTask` keeps the invariant from ANY state (an executing id is refused). -/
+/-- `startTask` keeps the invariant from ANY state (a live id is refused). -/
 theorem Inv.startTask' {s : TM} (hi : Inv s) (d : TaskDef) : Inv (Kap.C02.startTask s d) := by
-  cases hx : s.tasks d.id with
-  | none => exact hi.startTask hx
-  | some e => rw [startTask_executing (by simp [hx])]; exact hi
+  cases hl : s.isLive d.id with
+  | false => exact hi.startTask hl
+  | true => rw [startTask_executing hl]; exact hi
 
 theorem Inv.step {s : TM} (hi : Inv s) (op : Op) : Inv (Kap.C02.step s op) := by
   cases op with
@@ -109,15 +157,39 @@ theorem Inv.step {s : TM} (hi : Inv s) (op : Op) : Inv (Kap.C02.step s op) := by
   | startfail d => exact hi.startTaskFail d
   | stop id => exact hi.stopTask id
   | delete id => exact hi.stopTask id
+  | drain => exact hi.drain
   | write db rp pts =>
     exact (forkBatch (db := db) (rp := if (rp == "") = true then s.defaultRP else rp) "" 0 pts s hi).1
+
+theorem startTaskFail_liveEdge {s : TM} (hi : Inv s) (d : TaskDef) (t : String) :
+    (startTaskFail s d).liveEdge t = s.liveEdge t := by
+  by_cases hd : d.dbrps = []
+  · have : startTaskFail s d = s := by simp [startTaskFail, hd]
+    rw [this]
+  cases hl : s.isLive d.id with
+  | true => rw [startTaskFail_executing hl]
+  | false =>
+    unfold TM.liveEdge TM.isLive
+    rw [startTaskFail_tasks]
+    have hk : (startTaskFail s d).forkKeysOf t = if t = d.id then [] else s.forkKeysOf t := by
+      rw [startTaskFail_eq hd hl]
+      show (delFork (startTask s d) d.id).forkKeysOf t = _
+      rw [delFork_keysOf]
+      by_cases hid : t = d.id
+      · simp [upd, hid]
+      · simp [upd, hid, startTask_keysOf hd hl]
+    rw [hk]
+    by_cases hid : t = d.id
+    · subst hid
+      simp [hi.notLive_keys hl]
+    · simp [hid]
 
 /-- **Simulation.** From any state satisfying the invariant, running ANY continuation appends to the sink under from-node #`i` of
 task `t` exactly what the history spec prescribes. -/
 theorem sim (drp t : String) (i : Nat) (ops : List Op) :
     ∀ (s : TM), Inv s → s.defaultRP = drp →
       (ops.foldl step s).delivered t i =
-        s.delivered t i ++ ((writeEvents drp t ((s.tasks t).map (·.task)) ops).filter (qualifies i)).map (·.pt.id) := by
+        s.delivered t i ++ ((writeEvents drp t ((s.liveEdge t).map (·.task)) ops).filter (qualifies i)).map (·.pt.id) := by
   induction ops with
   | nil => intro s _ _; simp [writeEvents]
   | cons op rest ih =>
@@ -135,31 +207,53 @@ theorem sim (drp t : String) (i : Nat) (ops : List Op) :
       simp only [writeEvents, enabledAfter]
       by_cases hd : d.dbrps = []
       · rw [startTask_nodbrp hd]; simp [hd]
-      · cases hx : s.tasks d.id with
-        | some e =>
-          rw [startTask_executing (by simp [hx])]
+      · cases hl : s.isLive d.id with
+        | true =>
+          rw [startTask_executing hl]
           by_cases hid : d.id = t
-          · subst hid; simp [hx]
+          · subst hid
+            have hsome : s.tasks d.id ≠ none := by
+              intro h; simp [TM.isLive, h] at hl
+            simp [TM.liveEdge, hl, hsome]
           · simp [hid]
-        | none =>
-          rw [startTask_tasks hd hx]
+        | false =>
+          have hle : (startTask s d).liveEdge t =
+              if t = d.id then (if d.keys = [] then none else some ⟨s.nextEdge, d⟩) else s.liveEdge t := by
+            unfold TM.liveEdge TM.isLive
+            rw [startTask_tasks hd hl, startTask_keysOf hd hl]
+            by_cases hid : t = d.id
+            · subst hid
+              have hk0 : s.forkKeysOf d.id = [] := hi.notLive_keys hl
+              by_cases hk : d.keys = [] <;> simp [upd, hk0, hk]
+            · simp [upd, hid]
+          rw [hle]
           by_cases hid : d.id = t
-          · subst hid; simp [upd, hd, hx]
+          · subst hid
+            have hcur : s.liveEdge d.id = none := by simp [TM.liveEdge, hl]
+            have hkeys : d.keys = [] ↔ d.froms = [] := by
+              unfold TaskDef.keys forkKeys TaskDef.measurements
+              cases hdd : d.dbrps with
+              | nil => exact absurd hdd hd
+              | cons x xs => cases hf : d.froms <;> simp
+            by_cases hf : d.froms = []
+            · simp [hcur, hd, hf, hkeys.mpr hf]
+            · have : ¬ d.keys = [] := fun h => hf (hkeys.mp h)
+              simp [hcur, hd, hf, this]
           · have : ¬ t = d.id := fun h => hid h.symm
-            simp [upd, hid, this]
+            simp [hid, this]
     | startfail d =>
       simp only [step, stepWith] at hi' ⊢
       rw [ih _ hi' ((startTaskFail_defaultRP s d).trans hrp)]
       have hdel : (startTaskFail s d).delivered t i = s.delivered t i := by
         simp [delivered_eq, startTaskFail_log]
-      rw [hdel, startTaskFail_tasks]
+      rw [hdel, startTaskFail_liveEdge hi]
       simp only [writeEvents, enabledAfter]
     | stop id =>
       simp only [step, stepWith] at hi' ⊢
       rw [ih _ hi' ((stopTask_defaultRP s id).trans hrp)]
       have hdel : (stopTask s id).delivered t i = s.delivered t i := by
         simp [delivered_eq, stopTask_log]
-      rw [hdel, stopTask_tasks_apply]
+      rw [hdel, stopTask_liveEdge]
       simp only [writeEvents, enabledAfter]
       by_cases hid : id = t
       · subst hid; simp
@@ -170,12 +264,22 @@ theorem sim (drp t : String) (i : Nat) (ops : List Op) :
       rw [ih _ hi' ((stopTask_defaultRP s id).trans hrp)]
       have hdel : (stopTask s id).delivered t i = s.delivered t i := by
         simp [delivered_eq, stopTask_log]
-      rw [hdel, stopTask_tasks_apply]
+      rw [hdel, stopTask_liveEdge]
       simp only [writeEvents, enabledAfter]
       by_cases hid : id = t
       · subst hid; simp
       · have : ¬ t = id := fun h => hid h.symm
         simp [hid, this]
+    | drain =>
+      simp only [step, stepWith] at hi' ⊢
+      have hf := foldl_delFork_fields s.everForked s
+      rw [ih _ hi' (hf.2.2.1.trans hrp)]
+      have hdel : (drain s).delivered t i = s.delivered t i := by
+        simp [delivered_eq, drain, hf.2.1]
+      have hle : (drain s).liveEdge t = none := by
+        simp [TM.liveEdge, TM.isLive, drain_keysOf hi]
+      rw [hdel, hle]
+      simp only [writeEvents, enabledAfter, Option.map_none]
     | write db rp pts =>
       simp only [step, stepWith, writePointsWith] at hi' ⊢
       obtain ⟨h1, h2, h3, h4⟩ := forkBatch (db := db) (rp := if (rp == "") = true then s.defaultRP else rp) t i pts s hi
@@ -187,8 +291,8 @@ theorem sim (drp t : String) (i : Nat) (ops : List Op) :
       have hrp' : (if (rp == "") = true then s.defaultRP else rp) = writtenRP drp rp := by
         unfold writtenRP; rw [hrp]; by_cases h : rp = "" <;> simp [h]
       rw [hrp']
-      have hf : (qualifies i ∘ fun p => ({ enabled := Option.map (·.task) (s.tasks t), db := db, rp := writtenRP drp rp, pt := p } : WEv))
-          = wants s.tasks t i db (writtenRP drp rp) := by
+      have hf : (qualifies i ∘ fun p => ({ enabled := Option.map (·.task) (s.liveEdge t), db := db, rp := writtenRP drp rp, pt := p } : WEv))
+          = wants (s.liveEdge t) i db (writtenRP drp rp) := by
         funext r
         simp only [Function.comp, wants_eq_qualifies]
       rw [hf]
@@ -206,7 +310,7 @@ theorem inv_fold (ops : List Op) : ∀ (s : TM), Inv s → Inv (ops.foldl step s
 theorem run_delivered_eq_spec (drp : String) (ops : List Op) (t : String) (i : Nat) :
     (run drp ops).delivered t i = specDelivered drp t i ops := by
   have := sim drp t i ops (init drp) (Inv.init drp) rfl
-  simpa [run, specDelivered, init, TM.delivered] using this
+  simpa [run, specDelivered, init, TM.delivered, TM.liveEdge, TM.isLive] using this
 
 theorem run_inv (drp : String) (ops : List Op) : Inv (run drp ops) :=
   inv_fold ops (init drp) (Inv.init drp)
@@ -237,6 +341,7 @@ theorem writeEvents_filter_relevant (drp t : String) (ops : List Op) :
       by_cases h : id = t
       · simp [relevant, h, writeEvents, ih]
       · simp [relevant, h, writeEvents, enabledAfter, ih]
+    | drain => simp [List.filter_cons, relevant, writeEvents, ih]
     | write db rp pts =>
       simp [List.filter_cons, relevant, writeEvents, ih]
 
@@ -252,6 +357,7 @@ theorem writeEvents_ids (drp t : String) (ops : List Op) :
     | startfail d => simp [writeEvents, writtenIds, ih]
     | stop id => simp [writeEvents, writtenIds, ih]
     | delete id => simp [writeEvents, writtenIds, ih]
+    | drain => simp [writeEvents, writtenIds, ih]
     | write db rp pts => simp [writeEvents, writtenIds, ih, List.map_map, Function.comp_def]
 
 /-- One `WritePoints` call with the points `a ++ b` is, for the spec, two calls with `a` and with `b`. -/
@@ -270,6 +376,7 @@ theorem writeEvents_append (drp t : String) (xs ys : List Op) :
     | startfail d => obtain ⟨c, h⟩ := ih (enabledAfter t cur (.startfail d)); exact ⟨c, by simp [writeEvents, h]⟩
     | stop id => obtain ⟨c, h⟩ := ih (enabledAfter t cur (.stop id)); exact ⟨c, by simp [writeEvents, h]⟩
     | delete id => obtain ⟨c, h⟩ := ih (enabledAfter t cur (.delete id)); exact ⟨c, by simp [writeEvents, h]⟩
+    | drain => obtain ⟨c, h⟩ := ih (enabledAfter t cur .drain); exact ⟨c, by simp [writeEvents, h]⟩
     | write db rp pts => obtain ⟨c, h⟩ := ih cur; exact ⟨c, by simp [writeEvents, h, List.append_assoc]⟩
 
 end Kap.C02
